@@ -14,6 +14,7 @@ from .. import core
 from . import _store_common as sc
 
 SHARDED = True
+PRESSURE = {'fields': [{'dims': 'TSP', 'type': 'f8', 'required': True} for _ in range(4)], 'tag': 99}
 LAYOUTS = ['file', 'memory_save', 'assoc', 'create_assoc']
 
 
@@ -83,6 +84,11 @@ def case_strategy(draw, quick=True):
         seen.add(sc.fs_name(fd))
         fdefs.append(fd)
     layout = draw(st.sampled_from(LAYOUTS))
+    # cache pressure: four per-point species fields make the *estimated* size of a 500-point trajectory ~300 kB,
+    # so a 1 MB cache evicts during the writing session and reads there come from the file being written
+    pressure = layout != 'memory_save' and draw(st.integers(0, 3)) == 0
+    if pressure and sc.fs_name(PRESSURE) not in seen:
+        fdefs.append(PRESSURE)
     idx = list(range(len(fdefs)))
     if layout in ('assoc', 'create_assoc'):
         # partition: group 0 = base file, others = associated files
@@ -95,9 +101,11 @@ def case_strategy(draw, quick=True):
         groups = [idx]
     big = draw(st.integers(0, 9)) == 0
     n_range = (1, 130) if not big else (900, 1100)
+    if pressure:
+        n_range = (450, 600)
     desc0 = draw(sc.traj_desc(fdefs, n_range=n_range))
     # species fields that are required must be set -> traj_desc guarantees it
-    ntraj = draw(st.integers(0, 5))
+    ntraj = draw(st.integers(0, 5)) if not pressure else draw(st.integers(4, 6))
     extend_at = draw(st.integers(0, max(ntraj - 1, 0))) if (ntraj and draw(st.integers(0, 3)) == 0) else None
     trajs = [desc0]
     for k in range(ntraj):
@@ -115,7 +123,8 @@ def case_strategy(draw, quick=True):
         'groups': groups,
         'trajs': trajs,
         'append': app,
-        'cache_mb': draw(st.sampled_from([1, 1, 2, 2048])),
+        'cache_mb': 1 if pressure else draw(st.sampled_from([1, 1, 2, 2048])),
+        'pressure': pressure,
         'read_order': draw(st.sampled_from(['forward', 'backward', 'old_first'])),
     }
 
@@ -164,6 +173,8 @@ def body(ctx: core.Ctx, case: dict):
     model: list[dict] = []
     ext_refused = False
     labels = {layout}
+    if case.get('pressure'):
+        labels.add('cache_pressure')
 
     def add_all(store, descs, skip=()):
         nonlocal ext_refused
@@ -249,6 +260,8 @@ def body(ctx: core.Ctx, case: dict):
             return
 
         # read back in the writing session
+        if any(i not in store._trajectories for i in range(len(model))):
+            labels.add('session_read_from_file_after_eviction')
         if len(store) != len(model):
             ctx.fail('len.session', 'mismatch', 'TrajectoryStore.__len__', layout,
                      f'len {len(store)} != {len(model)} in writing session', case)
